@@ -6112,7 +6112,14 @@ class CodegenCtx:
                 pass # terminating state
         else:
             # A consuming transition taken for the end of input: what counts is whether the program is complete afterwards
-            if transition.target in self.dfa.accepting_states:
+            if any(x.get_target_override_mode() != ActionOverrideMode.NONE for x in transition.actions):
+                # (an action - e.g. a break in a conditional - may have sent the parser elsewhere: look at where it is now)
+                accepting = sorted(self.dfa.states.index(x) for x in self.dfa.accepting_states if x in self.dfa.states)
+                if accepting:
+                    transition_body.add(f"if ({' || '.join(f'state->state == {x}' for x in accepting)}) return {self.program_name.upper()}_DONE;")
+                transition_body.add(self._generate_enter_fail_state())
+                transition_body.add(f"return {self.program_name.upper()}_FAIL;")
+            elif transition.target in self.dfa.accepting_states:
                 transition_body.add(f"return {self.program_name.upper()}_DONE;")
             else:
                 transition_body.add(self._generate_enter_fail_state())
